@@ -210,6 +210,71 @@ mod verif_kani {
         core::mem::forget(t);
     }
 
+    /// deeper variant: 5 leading and 4 trailing trivia
+    fn check_filter_deep(mode: u8) {
+        let keep: bool = kani::any();
+        let k: [bool; 9] = kani::any();
+        let e: [usize; 9] = kani::any();
+        let l: [usize; 9] = kani::any();
+        let mut lead = Vec::with_capacity(5);
+        let mut i = 0;
+        while i < 5 {
+            lead.push(tagged(k[i], i, e[i], l[i]));
+            i += 1;
+        }
+        let mut trail = Vec::with_capacity(4);
+        while i < 9 {
+            trail.push(tagged(k[i], i, e[i], l[i]));
+            i += 1;
+        }
+        let mut t = Token { position: any_position(), leading_trivia: lead, trailing_trivia: trail };
+        let line0 = line_of(&t.position);
+        match mode {
+            0 => t.clear_comments(),
+            1 => t.clear_whitespaces(),
+            _ => t.filter_comments(move |_| keep),
+        }
+        let kept = |is_comment: bool| -> bool {
+            match mode {
+                0 => !is_comment,
+                1 => is_comment,
+                _ => !is_comment || keep,
+            }
+        };
+        let mut j = 0;
+        i = 0;
+        while i < 5 {
+            if kept(k[i]) {
+                assert!(j < t.leading_trivia.len() && is_tagged(&t.leading_trivia[j], k[i], i, e[i], l[i]), "C18: exactly the selected leading trivia remain, in order, unmodified");
+                j += 1;
+            }
+            i += 1;
+        }
+        assert!(j == t.leading_trivia.len(), "C18: no other leading trivia remain");
+        j = 0;
+        while i < 9 {
+            if kept(k[i]) {
+                assert!(j < t.trailing_trivia.len() && is_tagged(&t.trailing_trivia[j], k[i], i, e[i], l[i]), "C18: exactly the selected trailing trivia remain, in order, unmodified");
+                j += 1;
+            }
+            i += 1;
+        }
+        assert!(j == t.trailing_trivia.len(), "C18: no other trailing trivia remain");
+        assert!(line_of(&t.position) == line0, "C18: the code token itself is untouched");
+        kani::cover!(t.leading_trivia.len() == 2);
+        core::mem::forget(t);
+    }
+
+    //@harness props=C18,C12 kind=bounded tier=thorough fns=Token::clear_comments,Token::clear_whitespaces,Token::filter_comments bound="5 leading and 4 trailing trivia; kinds, reference numbers, token position and the filter's answer symbolic; the three filters by a symbolic choice" budget=1200
+    //@ desc="deeper bound of the three trivia filters: exactly the selected trivia remain, in order; the code token is unchanged"
+    #[kani::proof]
+    #[kani::unwind(11)]
+    fn vk_token_filters_deep_t() {
+        let mode: u8 = kani::any();
+        kani::assume(mode < 3);
+        check_filter_deep(mode);
+    }
+
     //@harness props=C18,C12 kind=bounded fns=Token::clear_comments bound="3 leading and 2 trailing trivia; kinds, reference numbers and the token position symbolic" budget=400
     //@ desc="clear_comments: leading'/trailing' are exactly the order-preserving sub-sequences of non-comment trivia; the code token (position kind, range, line, content) is unchanged"
     #[kani::proof]
